@@ -203,7 +203,7 @@ def make_dataset(rng, *args, **kw):
 def make_dataset_once(rng, n_inputs=None, fmt=None, clim=False, prob=False, ens=False, pit=False, others=(),
                  miss=None, sparse=None, max_t=5, max_l=4, max_s=4, some_without_obs=False,
                  same_dims=False, integerish=False, vrange=(-10, 30), single=None, hours=None,
-                 leadtime_pool=None, thresholds=None, quantiles=None, members=None):
+                 leadtime_pool=None, thresholds=None, quantiles=None, members=None, loc_pool=None, n_locs=None):
     """A family of inputs with mutually different coverage that share the same observations."""
     if n_inputs is None:
         n_inputs = rng.choice([1, 2, 2, 3, 4])
@@ -219,7 +219,9 @@ def make_dataset_once(rng, n_inputs=None, fmt=None, clim=False, prob=False, ens=
     alltimes = pick_times(rng, nt, hours=hours)
     pool = leadtime_pool or [0, 1, 3, 6, 12, 18, 23, 24, 25, 30, 36, 47, 48, 49, 72, 96, 240, 1.5]
     allleads = sorted(rng.sample(pool, min(nl, len(pool))))
-    alllocs = rng.sample(LOC_POOL, min(ns, len(LOC_POOL)))
+    if n_locs is not None:
+        ns = n_locs
+    alllocs = rng.sample(loc_pool or LOC_POOL, min(ns, len(loc_pool or LOC_POOL)))
     if thresholds is None:
         thresholds = sorted(rng.sample([-5.0, 0.0, 0.5, 5.0, 10.0, 12.5, 20.0], rng.randint(2, 4))) if prob else []
     if quantiles is None:
@@ -316,8 +318,10 @@ def text_columns(inp, st):
         cols.append(st["lead"])
     if st["has_loc"]:
         cols.append(st["loc"])
-    if st["latlon"]:
+    if st["latlon"] is True:
         cols += ["lat", "lon"]
+    elif st["latlon"] in ("lat", "lon"):     # only one of the two columns
+        cols.append(st["latlon"])
     if st["has_elev"]:
         cols.append(st["elev"])
     if "obs" in inp["has"]:
